@@ -26,7 +26,7 @@ CFG = {
             'distinct = distinct (history index, sequence of batch kinds+sizes+outcomes); every history applies at least 6 batches',
     'assumptions': [
         'shard-level preconditions that only the HTTP layer enforces (C18): vectors have the index dimension and float32 elements, '
-        'indexed integers are int64, indexed strings are non-empty on bbolt',
+        'indexed integers are int64 (an empty string at a string / string-array index is not a precondition any more: the model rejects the batch on a file store, c01_spec_empty_key_rejected; the in-memory store is given no such value)',
         'documents are compared as decoded trees (msgpack encode/decode is outside; the size limit is evaluated by the model of '
         'msgpack sizes Value.doc_size, generated far from the limit)',
         'a stored document is never the empty byte string (the empty map encodes to 1 byte), so SetPoint always writes the data key',
